@@ -83,6 +83,7 @@ tb := (k: int, v: bool) -> bool { log += [k]; return v };\n\
 tu := (k: int, v: int|string) -> int|string { log += [k]; return v };\n\
 ta := (k: int, v: [int]) -> [int] { log += [k]; return v };\n\
 tn := (k: int, v: any) -> any { log += [k]; return v };\n\
+tg := (k: int, v: (int, int) -> int) -> (int, int) -> int { log += [k]; return v };\n\
 hi := (v: int) -> int { return v };\n\
 hf := (v: float) -> float { return v };\n\
 hs := (v: string) -> string { return v };\n\
